@@ -22,7 +22,7 @@ type PkgObj struct {
 	// PhaseForm: how the phase annotation value is written: "" exact | "lead" (" ph0") | "trail" ("ph0 ") | "block"
 	// (YAML block scalar, i.e. "ph0\n"). Anything but the exact name does not name a phase of the manifest.
 	PhaseForm string `json:"phaseForm,omitempty"`
-	Keep    bool   `json:"keep,omitempty"`    // an unrelated annotation that must survive
+	Keep      bool   `json:"keep,omitempty"` // an unrelated annotation that must survive
 	// Tmpl selects templated content (only honoured in template files): "", "config", "helper", "quote", "b64", "default", "toJson"
 	Tmpl    string `json:"tmpl,omitempty"`
 	Variant int    `json:"variant,omitempty"`
@@ -69,7 +69,7 @@ type PkgDesc struct {
 	KubeRange        string `json:"kubeRange,omitempty"`
 	// OpenShiftRange: a platformVersion constraint on OpenShift (only evaluated on OpenShift clusters)
 	OpenShiftRange string `json:"openShiftRange,omitempty"`
-	Unique           bool   `json:"unique,omitempty"`
+	Unique         bool   `json:"unique,omitempty"`
 	// ConfigRequired makes config.label a required property.
 	ConfigRequired bool `json:"configRequired,omitempty"`
 	// SchemaVariant > 0 adds the config property "extra" (string) with the default "d<variant>" to the manifest's schema:
@@ -86,11 +86,11 @@ type PkgDesc struct {
 
 // PkgCtx is the render context: configuration and environment.
 type PkgCtx struct {
-	Label       string `json:"label"`
-	HasLabel    bool   `json:"hasLabel"`
-	Flag        bool   `json:"flag"`
+	Label    string `json:"label"`
+	HasLabel bool   `json:"hasLabel"`
+	Flag     bool   `json:"flag"`
 	// NoFlag: the configuration has no "flag" key at all (CEL conditions reading config.flag then cannot be evaluated)
-	NoFlag bool `json:"noFlag,omitempty"`
+	NoFlag      bool   `json:"noFlag,omitempty"`
 	OpenShift   bool   `json:"openShift,omitempty"`
 	KubeVersion string `json:"kubeVersion"`
 	PkgName     string `json:"pkgName"`
